@@ -1,6 +1,7 @@
 package main
 
 import (
+	"runtime"
 	"fmt"
 	"os"
 )
@@ -35,6 +36,12 @@ func main() {
 	if !ok {
 		fmt.Fprintf(os.Stderr, "driver: unknown command %q\n", os.Args[1])
 		os.Exit(2)
+	}
+	if os.Args[1] != "c19" {
+		// one P for every sequential driver: per-P caches of the runtime (sync.Pool) then behave the same way on every
+		// run of the same cases, so an event that depends on what an earlier call left in such a cache reproduces from
+		// its replay object. (C19 is about concurrency and keeps all Ps.)
+		runtime.GOMAXPROCS(1)
 	}
 	cmd(os.Args[2:])
 }
